@@ -20,6 +20,18 @@ func main() {
 		childMain()
 		return
 	}
+	if os.Getenv("C19_SHARD") != "" {
+		if pf := os.Getenv("C19_PROF"); pf != "" {
+			startProfile(pf)
+		}
+		shardMain()
+		return
+	}
+	if pf := os.Getenv("C19_PROF"); pf != "" {
+		stop := startProfile(pf)
+		defer stop()
+		_ = stop
+	}
 	harness.Main("C19", "exploration",
 		harness.Layer{Name: "expr", Run: layerExpr},
 		harness.Layer{Name: "stmt", Run: layerStmt},
@@ -56,40 +68,35 @@ func rules(h *harness.H) {
 	})
 }
 
-func layerExpr(h *harness.H) {
-	rules(h)
-	runLayer(h, "expr", h.N(1500, 120000), func(r *prng.R, c int) progSpec {
+func init() {
+	layerDefs["expr"] = layerDef{1500, 120000, func(r *prng.R, c int) progSpec {
 		p := &Prog{}
 		for i := 0; i < 4; i++ {
 			p.Funcs = append(p.Funcs, genExprFunc(r, fmt.Sprintf("f%d", i)))
 		}
 		return progSpec{prog: p, nvec: 40}
-	})
-}
-
-func layerStmt(h *harness.H) {
-	runLayer(h, "stmt", h.N(1500, 120000), func(r *prng.R, c int) progSpec {
+	}}
+	layerDefs["stmt"] = layerDef{1500, 100000, func(r *prng.R, c int) progSpec {
 		p := &Prog{}
 		for i := 0; i < 2; i++ {
 			p.Funcs = append(p.Funcs, genStmtFunc(r, fmt.Sprintf("f%d", i), false))
 		}
 		return progSpec{prog: p, nvec: 24}
-	})
-}
-
-func layerState(h *harness.H) {
-	runLayer(h, "state", h.N(700, 50000), func(r *prng.R, c int) progSpec {
+	}}
+	layerDefs["state"] = layerDef{700, 50000, func(r *prng.R, c int) progSpec {
 		p := &Prog{}
 		for i := 0; i < r.Range(1, 2); i++ {
 			p.Funcs = append(p.Funcs, genStmtFunc(r, fmt.Sprintf("f%d", i), true))
 		}
 		return progSpec{prog: p, nseq: 8}
-	})
-}
-
-func layerQuirk(h *harness.H) {
-	runLayer(h, "quirk", h.N(150, 3000), func(r *prng.R, c int) progSpec {
+	}}
+	layerDefs["quirk"] = layerDef{150, 3000, func(r *prng.R, c int) progSpec {
 		f, q := genQuirkFunc(r, "f0")
 		return progSpec{prog: &Prog{Funcs: []*Func{f}}, quirk: q, nvec: 12}
-	})
+	}}
 }
+
+func layerExpr(h *harness.H)  { rules(h); runLayer(h, "expr") }
+func layerStmt(h *harness.H)  { runLayer(h, "stmt") }
+func layerState(h *harness.H) { runLayer(h, "state") }
+func layerQuirk(h *harness.H) { runLayer(h, "quirk") }
